@@ -1651,7 +1651,8 @@ def _t_eval(target, _t, scope):
             break  # we handled the rest in recursive call, break loop
         elif op == '(':
             args, kwargs = arg
-            scope[Path] += t_path[2:i+2:2]
+            # (a new list: += would extend the enclosing scope's - or the caller's path= - list in place)
+            scope[Path] = scope[Path] + list(t_path[2:i+2:2])
             # (cur is a value to be called, whatever it is: not None-means-the-target,
             # not a spec to evaluate)
             cur = scope[glom](
@@ -2017,7 +2018,8 @@ def _handle_tuple(target, spec, scope):
             break
         res = nxt
         if not isinstance(subspec, list):
-            scope[Path] += [getattr(subspec, '__name__', subspec)]
+            # (a new list: += would extend the enclosing scope's - or the caller's path= - list in place)
+            scope[Path] = scope[Path] + [getattr(subspec, '__name__', subspec)]
     return res
 
 
